@@ -1,9 +1,11 @@
 /-
 Driver for C02: prints what the Lean analysis claims about the generated alias IR.
-  line 1:            `check <true|false>`
+  line 1:            `check <true|false>`            (= aliasCheck program)
   then per function: `fn <index> <name> ok=<b> mutA=[..] mutC=[..] retOwn=[..] retReach=[..] esc=[..] fnOK=<b>`
-Atoms: 0 = anything that existed before the call, i+1 = the object passed as parameter i.
-The harness (tools/props/C02.py) compares these claims with what the real code does.
+Atoms: 0 = anything that existed before the call; 2i+1 = the object passed as parameter i
+itself; 2i+2 = anything reachable from parameter i.
+tools/py2lean/aliasir.py turns the table into Gen/AliasSumm.lean (a certificate the kernel
+re-checks); tools/props/C02.py compares these claims with what the real code does.
 -/
 import AurelVerif.Model.Heap
 import AurelVerif.Gen.AliasIR
